@@ -14,7 +14,9 @@ def check(run):
     rc, out, dt = vlib.run_harness(env["bin"], ["gen", "C15", "-tier", run.tier, "-seed", str(run.seed), "-out", wd], timeout=2400)
     if rc != 0:
         tail = out[-1500:]
-        if "panic:" in out or "fatal error" in out:
+        if "watchdog:" in out:
+            run.violation("hang", "the client never returned: " + [l for l in out.splitlines() if "watchdog:" in l][0][:300], dict(log=tail))
+        elif "panic:" in out or "fatal error" in out:
             run.violation("crash", "the client harness process crashed outside recover: " + tail[-500:], dict(log=tail))
         else:
             run.violation("harness-run", "harness gen C15 failed: " + tail[-600:], dict(log=tail), no_input=True)
